@@ -116,7 +116,7 @@ func c20Font(c *explore.Ctx) (*sfnt.Font, []string, string) {
 		f.InstallCMap(cm12)
 	}
 	f.Gsub = nil
-	switch c.Choose(10, "gsub") {
+	switch c.Choose(11, "gsub") {
 	case 1:
 		f.Gsub = &gtab.Info{LookupList: gtab.LookupList{gen.MakeLookup(1, gen.Flags[0], []gtab.Subtable{&gtab.Gsub1_1{Cov: coverage.Set{1: true, 2: true}, Delta: 2}})}}
 		desc += ", GSUB1.1 {1,2}+2"
@@ -132,6 +132,10 @@ func c20Font(c *explore.Ctx) (*sfnt.Font, []string, string) {
 	case 5:
 		f.Gsub = &gtab.Info{LookupList: gtab.LookupList{gen.MakeLookup(4, gen.Flags[0], []gtab.Subtable{&gtab.Gsub4_1{Cov: coverage.Table{1: 0, 2: 1}, Repl: [][]gtab.Ligature{{{In: []glyph.ID{2}, Out: 4}}, {{In: []glyph.ID{1}, Out: 4}}}}})}}
 		desc += ", GSUB4 1+2->4 2+1->4"
+	case 10:
+		// a ligature set whose first entry has a component that has no name yet, followed by an entry to be named
+		f.Gsub = &gtab.Info{LookupList: gtab.LookupList{gen.MakeLookup(4, gen.Flags[0], []gtab.Subtable{&gtab.Gsub4_1{Cov: coverage.Table{1: 0}, Repl: [][]gtab.Ligature{{{In: []glyph.ID{2, 4}, Out: 3}, {In: []glyph.ID{2}, Out: 4}}}}})}}
+		desc += ", GSUB4 1+2+4->3 1+2->4"
 	case 9:
 		// variants with smaller glyph ids than their bases: the delta is negative (stored modulo 65536)
 		f.Gsub = &gtab.Info{LookupList: gtab.LookupList{gen.MakeLookup(1, gen.Flags[0], []gtab.Subtable{&gtab.Gsub1_1{Cov: coverage.Set{3: true, 4: true}, Delta: 0xFFFE}})}}
@@ -197,7 +201,7 @@ func c20Check(c *explore.Ctx, sig string, orig, got []string, n int, desc string
 
 func c20Names(r *run.Run) {
 	r.Explore(explore.Config{Name: "C20.names", Bound: c20Bound(r), Deadline: r.PartDeadline(0.95)},
-		"5-glyph fonts: 5 outline/name-storage kinds (CFF, CID, glyf with no / too short / full names list) x all name patterns over {empty, A, dup, .notdef, 'a b', f_i, B} per glyph x all subsets of 6 cmap entries (incl. a ligature character, a PUA and an astral code, two codes on one glyph) x 10 GSUB variants (1.1, 1.1 with a negative delta, 1.2 with two sources for one target, 3.1, 4.1, 4.1 with one output of two rules, two ligature lookups with equal components and different outputs, two single substitutions of one glyph, a ligature of a ligature): complete, distinct, .notdef first, unique names kept, inference from cmap / substitutions, retrievable after EnsureGlyphNames, identical on repeated calls",
+		"5-glyph fonts: 5 outline/name-storage kinds (CFF, CID, glyf with no / too short / full names list) x all name patterns over {empty, A, dup, .notdef, 'a b', f_i, B} per glyph x all subsets of 6 cmap entries (incl. a ligature character, a PUA and an astral code, two codes on one glyph) x 11 GSUB variants (1.1, 1.1 with a negative delta, a ligature set with a not yet nameable entry before a nameable one, 1.2 with two sources for one target, 3.1, 4.1, 4.1 with one output of two rules, two ligature lookups with equal components and different outputs, two single substitutions of one glyph, a ligature of a ligature): complete, distinct, .notdef first, unique names kept, inference from cmap / substitutions, retrievable after EnsureGlyphNames, identical on repeated calls",
 		func(c *explore.Ctx) {
 			f, orig, desc := c20Font(c)
 			c.Sample(func() any { return map[string]any{"names": orig, "font": desc} })
@@ -299,6 +303,57 @@ func c20Names(r *run.Run) {
 					}
 					if placeholder.MatchString(got[g]) && !placeholder.MatchString(base) {
 						c.Fail("C20.inference", sig+" substitution", "glyph %d is the output of a substitution rule whose source glyphs are named (%q ...) but gets the placeholder %q instead of a variant / ligature name (%q -> %q); %s", g, base, got[g], orig, got, desc)
+						return
+					}
+				}
+				// a name that is neither existing, nor from the character map, nor a placeholder is the
+				// variant name of SOME rule producing the glyph: the source's name (single / alternate
+				// substitution) or the component names joined by "_" (ligature), optionally followed
+				// by ".<number>" to make it unique
+				cands := map[glyph.ID][]string{}
+				for _, l := range f.Gsub.LookupList {
+					for _, st := range l.Subtables {
+						switch st := st.(type) {
+						case *gtab.Gsub1_1:
+							for g := range st.Cov {
+								cands[g+st.Delta] = append(cands[g+st.Delta], got[g])
+							}
+						case *gtab.Gsub1_2:
+							for g, i := range st.Cov {
+								cands[st.SubstituteGlyphIDs[i]] = append(cands[st.SubstituteGlyphIDs[i]], got[g])
+							}
+						case *gtab.Gsub3_1:
+							for g, i := range st.Cov {
+								for _, t := range st.Alternates[i] {
+									cands[t] = append(cands[t], got[g])
+								}
+							}
+						case *gtab.Gsub4_1:
+							for g, i := range st.Cov {
+								for _, lig := range st.Repl[i] {
+									parts := []string{got[g]}
+									for _, in := range lig.In {
+										parts = append(parts, got[in])
+									}
+									cands[lig.Out] = append(cands[lig.Out], strings.Join(parts, "_"))
+								}
+							}
+						}
+					}
+				}
+				suffix := regexp.MustCompile(`^\.[0-9]+$`)
+				for g := 1; g < n; g++ {
+					if ref[g] != "" || placeholder.MatchString(got[g]) {
+						continue
+					}
+					ok := false
+					for _, cand := range cands[glyph.ID(g)] {
+						if got[g] == cand || strings.HasPrefix(got[g], cand) && suffix.MatchString(got[g][len(cand):]) {
+							ok = true
+						}
+					}
+					if !ok {
+						c.Fail("C20.inference", sig+" variant name", "glyph %d is called %q, which is neither an existing name, a glyph-list name of one of its characters, a placeholder, nor the variant / ligature name of a rule producing it (candidates %q); %q -> %q; %s", g, got[g], cands[glyph.ID(g)], orig, got, desc)
 						return
 					}
 				}
